@@ -143,7 +143,22 @@ func runC01(c *Ctx) {
 				}
 			})
 		}
-		c.Check(okDefer, "C01.2-divergence-requests", FuncName(hh)+"|request returned", p.Pos(hh.Pos()), "the created request is published into the named result by the deferred closure")
+		if !okDefer {
+			// or it is returned directly (possibly out of a helper that creates it)
+			for _, ri := range Returns(hh) {
+				ret := ri.(*ssa.Return)
+				if len(ret.Results) == 0 {
+					continue
+				}
+				vals, _ := Origins(ret.Results[0])
+				for _, o := range vals {
+					if call, _, isCall := CallResult(o); isCall && cfr(&call.Call) {
+						okDefer = true
+					}
+				}
+			}
+		}
+		c.Check(okDefer, "C01.2-divergence-requests", FuncName(hh)+"|request returned", p.Pos(hh.Pos()), "the created request is what the handler returns (published into the named result by the deferred closure, or returned directly)")
 
 		hs := p.Func(stPkg + ":(*syncHandler).HandleStreamRequest")
 		isLen := func(v ssa.Value) bool {
